@@ -21,6 +21,38 @@ type ConnScript struct {
 	PeerIP     string        `json:"peer_ip,omitempty"`
 	// ExtraHeaders are added to every request (HTTP/2: names are sent lower-cased).
 	ExtraHeaders [][2]string `json:"extra_headers,omitempty"`
+	// AppendCCS: a change_cipher_spec record (14 03 03 00 01 01, which TLS 1.3 servers must ignore) leaves in
+	// the same write as the ClientHello record: the first read of the server holds more than the first record
+	AppendCCS bool `json:"append_ccs,omitempty"`
+}
+
+// ccsAppender adds a change_cipher_spec record to the first write that carries a handshake record.
+type ccsAppender struct {
+	*Conn
+	done bool
+}
+
+func (c *ccsAppender) Write(b []byte) (int, error) {
+	if c.done || len(b) < 6 || b[0] != 0x16 {
+		return c.Conn.Write(b)
+	}
+	c.done = true
+	// tee the logical bytes (the hello as the client produced it), send hello+CCS in one write
+	c.Conn.mu.Lock()
+	tee := c.Conn.teeWrite
+	c.Conn.teeWrite = nil
+	c.Conn.mu.Unlock()
+	if tee != nil {
+		*tee = append(*tee, b...)
+	}
+	_, err := c.Conn.Write(append(append([]byte{}, b...), 0x14, 0x03, 0x03, 0x00, 0x01, 0x01))
+	c.Conn.mu.Lock()
+	c.Conn.teeWrite = tee
+	c.Conn.mu.Unlock()
+	if err != nil {
+		return 0, err
+	}
+	return len(b), nil
 }
 
 type ConnResult struct {
@@ -98,6 +130,8 @@ func RunConn(p *Proxy, s ConnScript, tag string) *ConnResult {
 	if s.SplitHello > 0 {
 		sp := &helloSplitter{Conn: raw, cut: s.SplitHello}
 		c, err = handshakeOver(raw, sp, ClientOpts{Spec: &s.Spec, Segments: s.Segments})
+	} else if s.AppendCCS {
+		c, err = handshakeVia(raw, &ccsAppender{Conn: raw}, ClientOpts{Spec: &s.Spec, Segments: s.Segments})
 	} else {
 		c, err = Handshake(raw, ClientOpts{Spec: &s.Spec, Segments: s.Segments})
 	}
